@@ -70,7 +70,8 @@ CLAIMED = {
             "committed, later declarations go to a fresh rule with the same selectors, a nested @media / at-rule starts with a rule copied from the parent's selectors; "
             "selector construction, @at-root and media-query merging are outside"),
     "C21": ("E2", "symbolic execution of handle_item's @error arm, of the destination Drop impls and of their start_atmedia / start_atrule methods (MIR); z3 and cvc5",
-            "bounded model checking (dispatch scope): @error always fails the compilation; the Drop impls always commit their content; starting a nested @media / at-rule "
+            "bounded model checking (dispatch scope): a declaration with a non-null value is pushed exactly once or the compilation fails; @error always fails the compilation; "
+            "the Drop impls always commit their content; starting a nested @media / at-rule "
             "never takes content out of the parent destination; "
             "one recorded finding (a commit error inside Drop is only printed, so content can be dropped silently)"),
     "C36": ("E2", "symbolic execution of handle_item's comment arm and of the @use/@forward module initialiser closures (MIR), obligations decided by z3 and cvc5",
